@@ -145,33 +145,35 @@ EX unsigned vk_num_coeffs(void) { return G2Prepared::num_coeffs; }
 
 #ifndef DISABLE_ASM
 #if defined(__x86_64__)
+/* The dispatch pointers and the two sets of routines are reached through weak references to their linker names, not through the
+ * library's declarations: a library that organises its run-time dispatch differently (a const table, no pointers at all) still links,
+ * and the harness then reports that the back end cannot be switched instead of failing to build. */
 extern "C" {
-    bool embedded_pairing_core_arch_x86_64_cpu_supports_bmi2_adx(void);
-    void embedded_pairing_core_arch_x86_64_fpbase_384_montgomery_reduce(void* res, void* a, const void* p, uint64_t inv_word);
-    void embedded_pairing_core_arch_x86_64_bmi2_adx_fpbase_384_montgomery_reduce(void* res, void* a, const void* p, uint64_t inv_word);
-    void embedded_pairing_core_arch_x86_64_bigint_768_multiply(void* res, const void* a, const void* b);
-    void embedded_pairing_core_arch_x86_64_bmi2_adx_bigint_768_multiply(void* res, const void* a, const void* b);
-    void embedded_pairing_core_arch_x86_64_bigint_768_square(void* res, const void* a);
-    void embedded_pairing_core_arch_x86_64_bmi2_adx_bigint_768_square(void* res, const void* a);
+    typedef void (*vk_fn_t)(void);
+    extern vk_fn_t vk_rt_reduce __asm__("_ZN16embedded_pairing4core36runtime_fpbase_384_montgomery_reduceE") __attribute__((weak));
+    extern vk_fn_t vk_rt_multiply __asm__("_ZN16embedded_pairing4core27runtime_bigint_768_multiplyE") __attribute__((weak));
+    extern vk_fn_t vk_rt_square __asm__("_ZN16embedded_pairing4core25runtime_bigint_768_squareE") __attribute__((weak));
+    void vk_base_reduce(void) __asm__("embedded_pairing_core_arch_x86_64_fpbase_384_montgomery_reduce") __attribute__((weak));
+    void vk_fast_reduce(void) __asm__("embedded_pairing_core_arch_x86_64_bmi2_adx_fpbase_384_montgomery_reduce") __attribute__((weak));
+    void vk_base_multiply(void) __asm__("embedded_pairing_core_arch_x86_64_bigint_768_multiply") __attribute__((weak));
+    void vk_fast_multiply(void) __asm__("embedded_pairing_core_arch_x86_64_bmi2_adx_bigint_768_multiply") __attribute__((weak));
+    void vk_base_square(void) __asm__("embedded_pairing_core_arch_x86_64_bigint_768_square") __attribute__((weak));
+    void vk_fast_square(void) __asm__("embedded_pairing_core_arch_x86_64_bmi2_adx_bigint_768_square") __attribute__((weak));
+    bool vk_probe(void) __asm__("embedded_pairing_core_arch_x86_64_cpu_supports_bmi2_adx") __attribute__((weak));
 }
-/* 0: baseline routines, 1: BMI2/ADX routines, -1: query only. Returns 1 if the BMI2/ADX routines are selected. */
+static bool vk_switchable(void) {
+    return &vk_rt_reduce && &vk_rt_multiply && &vk_rt_square && vk_base_reduce && vk_fast_reduce && vk_base_multiply && vk_fast_multiply && vk_base_square && vk_fast_square;
+}
+/* 0: baseline routines, 1: BMI2/ADX routines, -1: query only. Returns 1 if the BMI2/ADX routines are selected, 0 if the baseline ones are,
+ * -2 for a mixture, -3 if this library's dispatch cannot be inspected / switched from outside. */
 EX int vk_dispatch(int mode) {
-    if (mode == 0) {
-        core::runtime_fpbase_384_montgomery_reduce = embedded_pairing_core_arch_x86_64_fpbase_384_montgomery_reduce;
-        core::runtime_bigint_768_multiply = embedded_pairing_core_arch_x86_64_bigint_768_multiply;
-        core::runtime_bigint_768_square = embedded_pairing_core_arch_x86_64_bigint_768_square;
-    } else if (mode == 1) {
-        core::runtime_fpbase_384_montgomery_reduce = embedded_pairing_core_arch_x86_64_bmi2_adx_fpbase_384_montgomery_reduce;
-        core::runtime_bigint_768_multiply = embedded_pairing_core_arch_x86_64_bmi2_adx_bigint_768_multiply;
-        core::runtime_bigint_768_square = embedded_pairing_core_arch_x86_64_bmi2_adx_bigint_768_square;
-    }
-    int n = 0;
-    n += core::runtime_fpbase_384_montgomery_reduce == embedded_pairing_core_arch_x86_64_bmi2_adx_fpbase_384_montgomery_reduce;
-    n += core::runtime_bigint_768_multiply == embedded_pairing_core_arch_x86_64_bmi2_adx_bigint_768_multiply;
-    n += core::runtime_bigint_768_square == embedded_pairing_core_arch_x86_64_bmi2_adx_bigint_768_square;
+    if (!vk_switchable()) return -3;
+    if (mode == 0) { vk_rt_reduce = vk_base_reduce; vk_rt_multiply = vk_base_multiply; vk_rt_square = vk_base_square; }
+    else if (mode == 1) { vk_rt_reduce = vk_fast_reduce; vk_rt_multiply = vk_fast_multiply; vk_rt_square = vk_fast_square; }
+    int n = (vk_rt_reduce == vk_fast_reduce) + (vk_rt_multiply == vk_fast_multiply) + (vk_rt_square == vk_fast_square);
     return n == 3 ? 1 : (n == 0 ? 0 : -2);
 }
-EX int vk_cpu_bmi2_adx(void) { return embedded_pairing_core_arch_x86_64_cpu_supports_bmi2_adx() ? 1 : 0; }
+EX int vk_cpu_bmi2_adx(void) { return vk_probe ? (vk_probe() ? 1 : 0) : -3; }
 #endif
 #else
 EX int vk_dispatch(int) { return -1; }
